@@ -163,6 +163,15 @@ def extract_reuse_info(text: str) -> ReuseInfo:
                 )
             )
             raise
+        # The expression parser chokes on some degenerate input, e.g. '()'
+        # (IndexError) or '(AND 1' (AssertionError). That is a parse error.
+        except Exception as error:
+            _LOGGER.error(
+                _("Could not parse '{expression}'").format(
+                    expression=expression
+                )
+            )
+            raise ExpressionError(f"Could not parse '{expression}'") from error
     for line in text.splitlines():
         for pattern in _COPYRIGHT_PATTERNS:
             match = pattern.search(line)
